@@ -144,7 +144,7 @@ class HistoryUnit(corr.Unit):
     def generate(self, rng, n, biased=False):
         out = []
         for _ in range(n):
-            strategy = rng.choice(["greedy", "balanced", "distributed", "greedy", "balanced", "balanced_market", "peak_shaving"])
+            strategy = rng.choice(["greedy", "balanced", "distributed", "balanced_market", "peak_shaving", "peak_shaving"])
             slow = strategy in ("balanced_market", "peak_shaving")
             js = scen.gen_scenario(rng, n_gc=rng.choice([1, 2]) if not slow else 1, steps=rng.choice([6, 12, 24]) if not slow else 8,
                                    interval=None if not slow else 60)
